@@ -391,7 +391,7 @@ def driver(cinco, desc, seed, n_traces, length):
                 if pending:
                     ev = pending.pop(0)
                 elif r < 0.6:
-                    which = rng.choice(["dflt", "dl", "name", "pw", "hash", "blob", "bl", "sl", "nl", "dd", "api", "sub.tok", "vault", "vault.sec", "vault2", "vault2.sec", "vault.inner.tok", "items", "sitems", "sub.port", "vault.inner.n"])
+                    which = rng.choice(["dflt", "dl", "name", "pw", "hash", "blob", "bl", "sl", "nl", "ratio", "dd", "api", "sub.tok", "vault", "vault.sec", "vault2", "vault2.sec", "vault.inner.tok", "items", "sitems", "sub.port", "vault.inner.n"])
                     path, key = which.rsplit(".", 1) if "." in which else ("", which)
                     p = path.split(".") if path else []
                     if key in ("name", "api"):
@@ -411,6 +411,8 @@ def driver(cinco, desc, seed, n_traces, length):
                         v = {"t": "list", "l": [B(rng.randint(0, 6), rng) for _ in range(rng.randint(0, 3))]}
                     elif key == "sl":
                         v = {"t": "list", "l": [S(rnd_text(rng, 6, 10, edge=False)) if rng.random() < 0.8 else S("") for _ in range(rng.randint(0, 3))]}
+                    elif key == "ratio":
+                        v = rng.choice([{"t": "float", "h": rng.randint(-9, 9)}, {"t": "fspec", "k": "inf"}, {"t": "fspec", "k": "ninf"}, {"t": "int", "i": rng.randint(-3, 3)}])
                     elif key == "nl":
                         v = {"t": "list", "l": [{"t": "list", "l": [S(rnd_text(rng, 6, 10, edge=False)) if rng.random() < 0.8 else S("") for _ in range(rng.randint(0, 2))]} for _ in range(rng.randint(0, 2))]}
                     elif key == "dd":
